@@ -25,7 +25,7 @@ def generate(seed, tier):
         from .. import eworld
 
         return eworld.gen_env_case(rng, PROP, big=big, rewards_focus=True)
-    spec = gen_instance(rng, max_jobs=6 if big else 4, max_machines=5 if big else 4, max_ops=6 if big else 4)
+    spec = gen_instance(rng, huge=0.05, max_jobs=6 if big else 4, max_machines=5 if big else 4, max_ops=6 if big else 4)
     names, style = gen_filter(rng, None, p_none=0.5)
     obs = [{"t": "makespan_reward"}, {"t": "idle_reward"}]
     if rng.random() < 0.5:
@@ -33,7 +33,10 @@ def generate(seed, tier):
     faulty = rng.random() < 0.5
     ops = gen_dispatch_ops(rng, n_ops(spec), p_query=0.05, p_invalid=0.1 if faulty else 0.0, p_reset=0.05 if faulty else 0.0,
                            episodes=2 if rng.random() < 0.2 else 1)
-    return {"prop": PROP, "kind": "dispatch", "cfg": {"instance": spec, "filter": names, "filter_style": style, "observers": obs, "observers_fixed": True}, "ops": ops}
+    cfg = {"instance": spec, "filter": names, "filter_style": style, "observers": obs, "observers_fixed": True}
+    if rng.random() < 0.15:
+        cfg["late_after"] = rng.randint(1, 3)  # the reward observers are attached after a few dispatches
+    return {"prop": PROP, "kind": "dispatch", "cfg": cfg, "ops": ops}
 
 
 def check_rewards(w, ctx, mk, idle, when):
@@ -75,7 +78,35 @@ def execute(case, ctx):
         from .. import eworld
 
         return eworld.execute_env_case(case, ctx, oracles=("rewards",))
-    w = DWorld(case["cfg"], ctx)
+    cfg = case["cfg"]
+    if cfg.get("late_after"):
+        # observers attached to a dispatcher that already holds a partial schedule: the sums are only promised to
+        # equal the objective for whole episodes, i.e. from the next reset on (then everything is as new)
+        w = DWorld({**cfg, "observers": []}, ctx)
+        for op in [o for o in case["ops"] if o[0] == "dispatch"][: cfg["late_after"]]:
+            r = w.resolve_dispatch(op[1], op[2], 0)
+            if r is None:
+                break
+            w.do_dispatch(*r)
+        for ospec in cfg["observers"]:
+            if w.add_observer(ospec, owner="C13") is None:
+                return
+        ctx.probe("reward_observers_attached_mid_history")
+        h = H(w)
+        armed = False
+        orig = h.after
+
+        def after(wx, i, kind, info):
+            nonlocal armed
+            if kind == "reset":
+                armed = True
+            if armed:
+                orig(wx, i, kind, info)
+
+        h.after = after
+        run_ops(w, list(case["ops"]) + [["reset"]] + [o for o in case["ops"] if o[0] == "dispatch"], h)
+        return
+    w = DWorld(cfg, ctx)
     run_ops(w, case["ops"], H(w))
 
 
